@@ -6,6 +6,7 @@ mod intern_cases;
 mod red_cases;
 mod interners;
 mod syn;
+mod token_cases;
 
 use std::alloc::{GlobalAlloc, Layout, System};
 use std::io::{BufRead, Write};
@@ -44,6 +45,7 @@ fn run_line(line: &str) -> String {
         "G" => green_cases::run_g(&args),
         "Y" => green_cases::run_y(&args),
         "I" => intern_cases::run_case(&args),
+        "Q" => token_cases::run_q(&args),
         "N" => red_cases::run_case(&args),
         "P" => intern_cases::run_concurrent(&args),
         "L" => {
